@@ -34,6 +34,7 @@ EXPLANATION = (
     "the state) and it returns that value, every path through the not-sticky edge ends with the remembered value set "
     "to the constant 0, and a qualifying event updates the value without consulting the flag; a component that interprets the action's "
     "response does so only behind the test that the action was its own request. R10.5 the numeric settings this property depends on are never tested by truthiness (`x or default`, `if x:`) - 0 is a legal value for them. "
+    "R10.6 every per-step reset in a simulator pre_timestep (response codes, execution / access counters, link load) is unconditional with respect to the operating state. "
     "NOT decided: the "
     "arithmetic inside individual components, floating point rounding of the sum, exhaustive enumeration of sharing "
     "graphs (the DFS functions are decided structurally, not by running them), behaviour when a shared-reward names an "
@@ -1213,3 +1214,7 @@ def check(ctx: Ctx) -> None:
     r10_4(ctx)
     from .common import falsy_numeric
     falsy_numeric(ctx, "R10.5", r"weight", "reward weights (a weight of 0 switches a component off)")
+    # components read "this step's" values (response codes, execution counts) from the state: they are that only if pre_timestep
+    # clears them at the start of every step, whatever state the component is in
+    from .common import per_step_resets
+    per_step_resets(ctx, "R10.6")
